@@ -3,14 +3,16 @@ import steps_C19
 
 ID = "C19"
 PROP = {
-    "modules": ["Gnmi.Props.C19"],
+    "modules": ["Gnmi.Props.C19", "Gnmi.Props.C19Exact"],
     "theorems": ["Gnmi.C19." + t for t in [
         "toStrings_shape", "toStrings_perm_invariant", "toStrings_deterministic", "toStrings_two_keys",
         "completePath_spec", "completePath_eq_spec",
         "query_roundtrip_partial", "query_trailing_slash_lost", "query_roundtrip_false", "query_total",
         "scalar_roundtrip",
         "equal_total", "equal_eq_spec", "equal_symm", "equal_sound",
-        "equal_nil_payload_panics", "equal_total_unrestricted_false", "equal_double_nil"]],
+        "equal_nil_payload_panics", "equal_total_unrestricted_false", "equal_double_nil",
+        "query_roundtrip_exact", "arrivesAs_iff_lastNotSlash", "query_last_slash_lost", "query_roundtrip_partial_of_exact",
+        "queryToPath_exact", "arrives_eq_self_iff", "arrivesAsList_unique"]],
     "components": [
         {"c": "pv", "quick": {"n": 5000, "exhaustive": True}, "thorough": {"n": 40000, "exhaustive": True, "seeds": 4}},
     ],
@@ -51,7 +53,10 @@ PROP = {
                       "permutation of every key map (Go map order), CompletePath accept/reject rule, query round trip "
                       "in both encodings, scalar round trip up to widening, totality/symmetry/soundness of Equal; tied "
                       "to the code by the pv differential correspondence (every tostr input 20x, all-pairs Equal, "
-                      "exhaustive small scopes, seeded random inputs with arbitrary UTF-8).",
+                      "exhaustive small scopes, seeded random inputs with arbitrary UTF-8). "
+                      "Props/C19Exact.lean: query_roundtrip_exact characterises the round trip of EVERY plain query, the known "
+                      "finding D18 included (the query arrives as itself minus its last element when that element ends in '/'), and "
+                      "arrivesAs_iff_lastNotSlash proves D18 is the only deviation.",
         "level_note": "Trusted: Lean kernel (axioms propext, Quot.sound, Classical.choice only), the hand-written models "
                       "as validated by the correspondence harness, Go runtime; ygot is modelled, not verified; floats "
                       "abstract in theorems. query_roundtrip is proved with the hypothesis 'last element does not end in /' "
